@@ -145,3 +145,9 @@ Theorem C07_colliding_make_unique :
         ["X1"; "X2"; "_"; "Z"; "Z0"; "AUX"; "AUX0"; "X00"]).
 Proof. exact colliding_make_unique. Qed.
 Print Assumptions C07_colliding_make_unique.
+
+From NGO Require Import Syntax.Ast Model.Cleanup Link.CleanupSpec.
+
+Theorem C07_passthrough_cleanup : forall (inputs : list pred) (prg out : list stmt), execute_core inputs prg = Ok out -> filter non_rule out = filter non_rule prg.
+Proof. exact (@passthrough_cleanup_proof). Qed.
+Print Assumptions C07_passthrough_cleanup.
